@@ -7,16 +7,16 @@ Import ListNotations.
    sibling stub.  FALSE in the faithful model (Properties.crawl_find_inverse_strict_refuted): a package
    a/__init__.py beside a.py wins. *)
 Definition crawl_find_inverse_strict : Prop :=
-  forall o t f m b, wf_node (Dir t) = true -> valid_names t = true -> isfile t f = true -> m <> [] ->
+  forall o t f m b, wf_node (Dir t) = true -> valid_names t = true -> isfile t f = true -> py_path f = true -> m <> [] ->
     crawl_up o t f = Ok (m, b) ->
     exists g, find_module o t [b] m = Found g /\ strict_ok f g = true.
 
-(* The form that holds (every mode, any depth): the result is the file, its sibling stub, the package beside a
-   module file (both map to the same name: duplicate error when both are given) or, in namespace mode, the
-   directory beside a module file.  NOT PROVED in this round: evaluated by the extracted model on every
-   enumerated valid tree x option combination in each run (harness: model_inverse_statement_checked_files). *)
+(* The form that holds, for every tree, depth and option combination (classic, namespace_packages,
+   explicit_package_bases with any mypy_path / cwd): the result is the file, its sibling stub, the package beside a
+   module file (both map to the same name: duplicate error when both are given) or, in namespace mode, the directory
+   beside a module file (`rel_ok` in Model.v).  PROVED: Properties.crawl_find_inverse. *)
 Definition crawl_find_inverse : Prop :=
-  forall o t f, wf_node (Dir t) = true -> valid_names t = true -> isfile t f = true ->
+  forall o t f, valid_names t = true -> isfile t f = true -> py_path f = true ->
     inverse_ok o t f = true.
 
 Definition same_sources (l1 l2 : list source) : Prop :=
@@ -25,11 +25,20 @@ Definition same_sources (l1 l2 : list source) : Prop :=
 
 (* DESIGN statement: a directory, and its files listed one by one in any order, give the same (module, path)
    set, or the duplicate check fires.  FALSE in the faithful model (Properties.dir_eq_files_refuted):
-   w/{ a.py a/{ b.py } }.  The order part holds (Properties.files_order_irrelevant). *)
+   w/{ a.py a/{ b.py } }. *)
 Definition dir_eq_files : Prop :=
   forall o t d l_dir fs l_files, wf_node (Dir t) = true -> valid_names t = true ->
     find_sources_in_dir o t d = Ok l_dir -> Permutation fs (py_files t d) -> crawl_each o t fs = Ok l_files ->
     same_sources l_dir l_files \/ ~ NoDup (map s_mod l_files).
+
+(* The strongest TRUE form: on trees without a module file n.py[i] beside a directory n (`no_shadow`), for every
+   option combination, depth and order of the files, either two files share a module name (load_graph then stops with
+   "Duplicate module named": Properties.duplicate_detected) or the directory walk and the per-file crawl yield the
+   same sources (as multisets, hence the same (module, path, base) set).  PROVED: Properties.dir_eq_files_no_shadow. *)
+Definition dir_eq_files_no_shadow : Prop :=
+  forall o t d l_dir fs l_files, wf_node (Dir t) = true -> no_shadow t = true ->
+    find_sources_in_dir o t d = Ok l_dir -> Permutation fs (py_files t d) -> crawl_each o t fs = Ok l_files ->
+    Permutation l_dir l_files \/ ~ NoDup (map s_mod l_files).
 
 (* ... and `-p pkg` from the directory holding pkg yields the same files as the directory (namespace
    directories apart).  NOT PROVED; compared on real command lines (S2) and model-vs-mypy (C). *)
